@@ -3,7 +3,7 @@
 KEYS = ("prog", "wd", "env", "extra", "in", "out", "err", "rparent", "rdiscard", "stop", "dl",
         "input", "nb", "fork", "term", "skill", "ignpipe", "argvnull", "text", "runex",
         "ident", "rfile", "rpath", "nofile", "pathmode", "handlemode", "argvx", "envx", "wdx", "progx",
-        "hin", "hout", "herr", "hlow", "inchild", "hinfd", "houtfd", "herrfd", "bigarg", "foutstd", "ferrstd")
+        "hin", "hout", "herr", "hlow", "inchild", "hinfd", "houtfd", "herrfd", "bigarg", "foutstd", "ferrstd", "rootrel")
 
 
 def start_tokens(h, opts):
